@@ -16,7 +16,7 @@ func init() {
 		ID: "C04",
 		Explain: "Issuance/parse agreement of package x509, as structure. R-TABLE: every extension OID buildExtensions emits has an arm in parseCertificate (2.5.29.x switch or Id.Equal). R-GUARD (both directions of each extension guard): an extension block is skipped only if every template list it encodes is empty or the caller supplied that extension. " +
 			"R-WIDTH: parseCertificate's key-usage loop reads at least as many bits as the widest KeyUsage constant, each bit i through usageBits.At(i) into 1<<i, and buildExtensions writes both octets. R-VSET: the UTCTime/GeneralizedTime cut-over agrees between writer and reader " +
-			"(outsideUTCRange, appendUTCTime's two-digit branches, the encoder choice at both marshal sites, parseUTCTime's century adjustment: thresholds 1950/2000/2050 with the RFC 5280 orientation). R-PROV: the tbsCertificate CreateCertificate signs and the outer certificate are built from the template/parent fields in c04_oracle.go (serial, UTC validity, subject/issuer bytes, public key, extensions; the signature covers the marshalled TBS).",
+			"(outsideUTCRange, appendUTCTime's two-digit branches, the encoder choice at both marshal sites, parseUTCTime's century adjustment: thresholds 1950/2000/2050 with the RFC 5280 orientation). R-FRESH: no loop in the creation path lets a value built in a buffer allocated outside the loop escape an iteration (name-constraint, SAN and policy entries do not alias one another). R-PROV: the tbsCertificate CreateCertificate signs and the outer certificate are built from the template/parent fields in c04_oracle.go (serial, UTC validity, subject/issuer bytes, public key, extensions; the signature covers the marshalled TBS).",
 		NotCov: "equality of parsed and supplied values (DER encoding details of each extension body), per-OID field correspondence between builder and parser arms.",
 		Floor:  40,
 		Run:    runC04,
@@ -203,6 +203,9 @@ func runC04(c *Ctx) {
 
 	// ---------------- time thresholds
 	c.timeThresholds()
+
+	// ---------------- R-FRESH (round 2): per-entry values are not built in a buffer shared across loop iterations
+	c.FreshObligations(fileScope(w, []string{pkg + ".CreateCertificate"}, "x509/x509.go"), "certificate creation")
 
 	// ---------------- the TBS certificate
 	if fn := w.Fn(pkg + ".CreateCertificate"); fn != nil {
